@@ -150,8 +150,10 @@ Inductive act :=
 | APop                  (* poll: mailbox locked, front command removed, handler runs *)
 | APush (x : tid)       (* push + notify into mailbox x (child or parent) *)
 | ANotifySelf           (* notifyThread() / notifier.notify() on the own notifier *)
-| AFinish (maxd : bool) (* helper: negaScout returned; sendReportResult; maxd: MAX_SEARCH_DEPTH *)
+| AFinish               (* helper: negaScout returned; sendReportResult(jobId, score) *)
+| AMaxDepth             (* helper: searchDepth >= MAX_SEARCH_DEPTH: jobId = -1, leave doSearch *)
 | ARdQuit | ARdSearch   (* master: unsynchronised reads in mainLoop *)
+| AInitSearch           (* master: iterativeDeepening: comm.sendInitSearch (skipped when there is no legal move) *)
 | AStartJob             (* master: negaScoutRoot: jobId++, sendStartSearch *)
 | ABest                 (* master: ponder/infinite wait over, finishSearch (bestmove) *)
 | AStopSearch           (* master: comm->sendStopSearch() entry *)
@@ -161,6 +163,7 @@ Inductive eact :=
 | EGo (p : bool)        (* go / go ponder|infinite: lock; search = true; unlock *)
 | ENotify               (* ... notifier.notify() of startSearch *)
 | EUnponder             (* stop / ponderhit: ponder = infinite = false *)
+| ESpur                 (* setoption: setOptionWhenIdle's notifier.notify() *)
 | EQuit.                (* quit: lock; quitFlag = true; notify; unlock *)
 
 Section Model.
@@ -255,13 +258,13 @@ Definition step_h (s : state) (t : tid) (p : tid) (a : act) : option state :=
           end
       | _ => None
       end
-  | PPoll (KSearch j), AFinish maxd =>
+  | PPoll (KSearch j), AFinish =>
       if job l =? j then
-        let s1 := if hasres l then s else push s p (CReport j (S (se l)) t) false in
-        let l1 := set_hasres l true in
-        if maxd then Some (set_th s1 t (self_ack_h t (set_job l1 (-1))))
-        else Some (set_th s1 t l1)
+        if hasres l then Some s
+        else Some (set_th (push s p (CReport j (S (se l)) t) false) t (set_hasres l true))
       else None
+  | PPoll (KSearch j), AMaxDepth =>
+      if job l =? j then Some (set_th s t (self_ack_h t (set_job l (-1)))) else None
   | PStopNotify k, ANotifySelf =>
       Some (set_th (set_flag s t true) t (enter_fwd_h FStop k (children t) l))
   | PFwd w k rest, APush x =>
@@ -317,8 +320,10 @@ Definition step_m (s : state) (a : act) : option state :=
       else Some (set_th s t (set_pc l MRdSearch))
   | MRdSearch, ARdSearch =>
       if search s then
-        Some (set_th (set_sid s (S (sid s))) t (enter_fwd_m FInit KMSearch (children t) (set_job l 0)))
+        Some (set_th (set_sid s (S (sid s))) t (set_pc (set_job l 0) (PPoll KMSearch)))
       else Some (set_th s t (set_pc l (PWait KTop)))
+  | PPoll KMSearch, AInitSearch =>
+      Some (set_th s t (enter_fwd_m FInit KMSearch (children t) l))
   | PPoll KMSearch, AStartJob =>
       let j := job l + 1 in
       Some (set_th s t (enter_fwd_m (FStart j) KMSearch (children t) (set_job l j)))
@@ -399,6 +404,7 @@ Definition estep (s : state) (e : eact) : option state :=
       | _ => None
       end
   | EUnponder => Some (set_ponder s false)
+  | ESpur => Some (set_flag s 0%nat true)
   | EQuit =>
       match epc s with
       | EIdle => if search s || quitf s then None else Some (set_flag (set_quitf s true) 0%nat true)
